@@ -18,6 +18,7 @@ HTTP client that directly calls CGI executable.
 """
 
 import errno
+import logging
 import os
 import re
 import subprocess
@@ -29,6 +30,8 @@ from mapproxy.source import SourceError
 from mapproxy.image import ImageSource
 from mapproxy.client.http import HTTPClientError
 from mapproxy.client.log import log_request
+
+log = logging.getLogger('mapproxy.source.cgi')
 
 
 def split_cgi_response(data):
@@ -102,10 +105,13 @@ class CGIClient(object):
                                  cwd=self.working_directory or os.path.dirname(self.script)
                                  )
         except OSError as ex:
+            # the path of the script stays in the log, the message ends up in error documents
             if ex.errno == errno.ENOENT:
-                raise SourceError('CGI script not found (%s)' % (self.script,))
+                log.error('CGI script not found (%s)', self.script)
+                raise SourceError('CGI script not found (see log for the path)')
             elif ex.errno == errno.EACCES:
-                raise SourceError('No permission for CGI script (%s)' % (self.script,))
+                log.error('No permission for CGI script (%s)', self.script)
+                raise SourceError('No permission for CGI script (see log for the path)')
             else:
                 raise
 
